@@ -38,7 +38,7 @@ def const_case(ch, n=200):
     expect = []
     for i in range(n):
         t = ch.pick((F32, F64, F32, F64, I32, I64))
-        v = pools.draw_value(ch, t)
+        v = pools.draw_const(ch, t)
         if t in (F32, F64):
             it = I32 if t == F32 else I64
             if ch.below(2):
